@@ -1,6 +1,7 @@
 (** C11 — case type and verdict functions evaluated by [bin/check] on the observations of
     the Go driver (harness/cmd/c11). *)
-From Verif Require Import Base.Prelude Gen.Constants Model.CacheStore.
+From Verif Require Import Base.Prelude Gen.Constants.
+From Verif Require Export Model.CacheStore.
 Open Scope N_scope.
 
 (** the driver's key type: Sum() returns the key itself, so shard = key mod 64 *)
@@ -13,6 +14,9 @@ Inductive case :=
   (** one goroutine: operations, the keys each Store was observed to evict (Range before and
       after), and the result of every operation (Range sorted by key) *)
 | CSeq (size : Z) (ops : list (op * list key)) (obs : list result)
+  (** the same with an explicit clock reading per operation (the driver sleeps; each reading
+      is at least four seconds away from every expiry) *)
+| CSeqT (size : Z) (ops : list (op * Z * list key)) (obs : list result)
   (** several goroutines: the invocation/response history ordered by a global atomic counter *)
 | CConc (size : Z) (h : list label)
   (** keys 0..n-1 stored one after the other (value = key, expiry +3600): observed Len *)
@@ -46,23 +50,26 @@ Fixpoint ins3 (x : key * val * Z) (l : list (key * val * Z)) :=
 Definition canon (r : result) : result :=
   match r with RRange l => RRange (fold_right ins3 [] l) | _ => r end.
 
-Fixpoint seq_agree (c : cache) (ops : list (op * list key)) (obs : list result) : bool :=
+Definition at0 (ops : list (op * list key)) : list (op * Z * list key) :=
+  map (fun x => (fst x, 0%Z, snd x)) ops.
+
+Fixpoint seq_agree (c : cache) (ops : list (op * Z * list key)) (obs : list result) : bool :=
   match ops, obs with
   | [], [] => true
-  | (o, evs) :: ops', r :: obs' =>
+  | (o, now, evs) :: ops', r :: obs' =>
     let m := match o with OStore k _ _ => c_sh c (ix hash k) | _ => [] end in
     (* an eviction that hit the stored key itself is invisible to the driver *)
     let evs' := match o with
                 | OStore k _ e =>
-                  if (0 <=? e)%Z && Nat.ltb (length evs) (evictions c k) && has_key m k
+                  if (now <=? e)%Z && Nat.ltb (length evs) (evictions c k) && has_key m k
                   then evs ++ [k] else evs
                 | _ => evs end in
     let ok_ev := match o with
                  | OStore k _ e =>
-                   if (e <? 0)%Z then Nat.eqb (length evs) 0
+                   if (e <? now)%Z then Nat.eqb (length evs) 0
                    else Nat.eqb (length evs') (evictions c k) && forallb (has_key m) evs'
                  | _ => Nat.eqb (length evs) 0 end in
-    let '(c', r') := exec hash c 0%Z (choices m evs') o in
+    let '(c', r') := exec hash c now (choices m evs') o in
     ok_ev && result_eqb (canon r') r && seq_agree c' ops' obs'
   | _, _ => false
   end.
@@ -94,7 +101,8 @@ Fixpoint pair_ops (i : nat) (ls : list label) (pend : list (nat * (nat * op))) (
 
 Definition agree (c : case) : bool :=
   match c with
-  | CSeq size ops obs => seq_agree (new size) ops obs
+  | CSeq size ops obs => seq_agree (new size) (at0 ops) obs
+  | CSeqT size ops obs => seq_agree (new size) ops obs
   | CConc size h =>
     match pair_ops O h [] [] with
     | Some _ => history_ok_b h && lens_ok_b size h
@@ -121,22 +129,22 @@ Fixpoint nodup_keys (l : list (key * val * Z)) : bool :=
   | x :: t => negb (existsb (fun y => fst (fst y) =? fst (fst x)) t) && nodup_keys t
   end.
 
-Fixpoint seq_spec (cap : Z) (a : amap) (ops : list (op * list key)) (obs : list result) : bool :=
+Fixpoint seq_spec (cap : Z) (a : amap) (ops : list (op * Z * list key)) (obs : list result) : bool :=
   match ops, obs with
   | [], [] => true
-  | (o, _) :: ops', r :: obs' =>
+  | (o, now, _) :: ops', r :: obs' =>
     match o, r with
     | OGet k, RGet None =>
       (* nothing is always allowed; an expired element is dropped by the lookup *)
-      let a' := match aget k a with Some (_, e) => if (e <? 0)%Z then adel k a else a | None => a end in
+      let a' := match aget k a with Some (_, e) => if (e <? now)%Z then adel k a else a | None => a end in
       seq_spec cap a' ops' obs'
     | OGet k, RGet (Some (v, e)) =>
       match aget k a with
-      | Some (v', e') => (v' =? v) && (e' =? e)%Z && (0 <=? e)%Z && seq_spec cap a ops' obs'
+      | Some (v', e') => (v' =? v) && (e' =? e)%Z && (now <=? e)%Z && seq_spec cap a ops' obs'
       | None => false
       end
     | OStore k v e, RUnit =>
-      seq_spec cap (if (e <? 0)%Z then a else (k, (v, e)) :: adel k a) ops' obs'
+      seq_spec cap (if (e <? now)%Z then a else (k, (v, e)) :: adel k a) ops' obs'
     | OFlush, RUnit => seq_spec cap [] ops' obs'
     | OLen, RLen n =>
       (Z.of_N n <=? cap)%Z && (n <=? N.of_nat (length a)) && seq_spec cap a ops' obs'
@@ -146,8 +154,8 @@ Fixpoint seq_spec (cap : Z) (a : amap) (ops : list (op * list key)) (obs : list 
                            | Some (v, e) => (v =? snd (fst x)) && (e =? snd x)%Z
                            | None => false end) l
       && seq_spec cap a ops' obs'
-    | OGc now, RUnit =>
-      seq_spec cap (filter (fun kx => negb (snd (snd kx) <? now)%Z) a) ops' obs'
+    | OGc now', RUnit =>
+      seq_spec cap (filter (fun kx => negb (snd (snd kx) <? now')%Z) a) ops' obs'
     | _, _ => false
     end
   | _, _ => false
@@ -192,7 +200,8 @@ Definition conc_spec (cap : Z) (h : list label) : bool :=
 
 Definition spec (c : case) : bool :=
   match c with
-  | CSeq size ops obs => seq_spec (cap_spec size) [] ops obs
+  | CSeq size ops obs => seq_spec (cap_spec size) [] (at0 ops) obs
+  | CSeqT size ops obs => seq_spec (cap_spec size) [] ops obs
   | CConc size h => conc_spec (cap_spec size) h
   | CFill size n lenobs => (Z.of_N lenobs <=? cap_spec size)%Z && (lenobs <=? n)
   | CLenMax size maxlen => (Z.of_N maxlen <=? cap_spec size)%Z
@@ -214,6 +223,7 @@ Definition overlap (a b : iop) : bool :=
 Definition nontrivial (c : case) : bool :=
   match c with
   | CSeq size ops _ => odd_size size || existsb (fun x => negb (Nat.eqb (length (snd x)) 0)) ops
+  | CSeqT _ _ _ => true
   | CConc size h =>
     odd_size size ||
     match pair_ops O h [] [] with
